@@ -56,6 +56,7 @@ fn main() {
             }
         }
         "c20-trace-one" => { c20_no_register(); c20::trace_one(&args[2]); }
+        "c20-variants-one" => { c20::variants_one(); }
         "c20-expected-one" => { c20::expected_one(args[2].parse().unwrap_or(0)); }
         "c20-stress-one" => { c20::stress_one_focus(args[2].parse().unwrap(), args[3].parse().unwrap(), args[4] == "1", args[5].parse().unwrap(), args.get(6).cloned()); }
         "c20" => { c20::campaign(&args[2], args.get(3).and_then(|s| s.parse().ok()).unwrap_or(1), args.get(4).map(|s| s == "thorough").unwrap_or(false)); }
